@@ -11,3 +11,53 @@ TEXT = {
         "technique": "runtime monitoring: exhaustive execution of the real constructors against an orbit oracle",
     },
 }
+
+TEXT.update({
+    "C03": {
+        "level": "The real ShearElasticModulusPhononContribution is executed for all 15 shear-type keys on all 21 canonical basis "
+                 "tensors (complete for the linear map) plus random tensors, tensor fields and linearity probes; spy dictionaries "
+                 "record every component it reads and refuse the target; the frame it chose is checked to be orthogonal and "
+                 "diagonalising, and the oracle rotates the full 3x3x3x3 tensor into it. Rotated strains are compared with "
+                 "diag(T^T diag(e) T) and re-run with permuted/sign-flipped eigenvectors. Exactness to 1e-12.",
+        "note": "Linearity is monitored on random pairs rather than proved; the frame T is the solver's own (the property says so).",
+        "technique": "runtime monitoring: spy-dictionary hooks on the real solver + full-tensor rotation oracle over a complete basis",
+    },
+    "C08": {
+        "level": "Static half: for each of the nine systems the relation matrix that the real parser hands to sympy.linear_eq_to_matrix "
+                 "is captured during a real fill_cij call and compared, by exact rational rank computations, with the invariant "
+                 "subspace of the Laue group built from rotation generators (both inclusions) - complete. Dynamic half: generated "
+                 "symmetry-consistent tables (each basis vector of the invariant subspace and random combinations, 1-12 rows, "
+                 "minimal sufficient subsets and supersets, via fill_cij and apply_symetry_on_elast_data) must come back as the "
+                 "invariant tensor (1e-9), with vanishing components omitted.",
+        "note": "Trusts sympy exact arithmetic and the textbook Laue generators in the stated setting (dimensions 21/13/9/7/6/7/6/5/3 cross-checked).",
+        "technique": "runtime monitoring: captured parser output vs exact group-theory oracle; generated-table differential check",
+    },
+    "C09": {
+        "level": "Generated tables drive the real fill_cij / `cij fill`: sufficiency decided by an independent rank computation on the "
+                 "Laue-invariant subspace, inconsistencies injected away from the threshold (>=5 GPa must refuse, <=0.01 GPa must "
+                 "accept), all four flag combinations, zero-by-symmetry components given non-zero values; on acceptance supplied "
+                 "values/relations are bounded by sqrt(residual_atol), non-modulus columns (incl. all-zero) must survive, drop "
+                 "tolerance is probed on both sides; presentation variants (order, case, int dtype, explicit defaults) must agree; "
+                 "working directories containing directories named like systems and user-written relation files (by absolute and "
+                 "relative path) are exercised in-process and through the real command in subprocesses.",
+        "note": "Refusal oracle assumes relations == Laue invariants (that is C08). Perturbations inside (0.01, 5) GPa are not judged.",
+        "technique": "runtime monitoring: outcome classification of the real function against a group-theoretic refusal oracle, metamorphic presentation/environment runs",
+    },
+    "C16": {
+        "level": "icontract post-conditions (leaf-path merge oracle, inputs untouched) wrap the real update_config so that recursion and "
+                 "apply_default_config go through them; thousands of generated nested dictionaries including every shape conflict, "
+                 "sparse overrides of the packaged defaults, idempotence; YAML/JSON spellings through the real read_config; the "
+                 "real validate_config is driven with every documented field set to accepted and rejected values on several valid "
+                 "bases, missing sections, and the shipped files.",
+        "note": "Empty-dict-versus-scalar conflicts are skipped (the statement does not pin them). Accept/reject tables are a transcription of the documented schema constraints.",
+        "technique": "runtime monitoring: icontract contracts on the real merge + single-field perturbation sweep of the real validator",
+    },
+    "C20": {
+        "level": "The real evec_sort, evec_disp2eig and evec_load are executed on generated unitary bases (real/complex, dim 2-60, "
+                 "permutations, phases, perturbations up to 5 % in 2-norm, four container presentations), unrelated bases "
+                 "(permutation-of-input invariant), mismatched dimensions (must raise), displacement sets with arbitrary norms and "
+                 "masses, and matdyn-layout files written by the oracle's own Fortran-format writer (every value compared).",
+        "note": "Perturbation domain chosen so that the correct assignment is forced (true overlaps >= 0.95, false <= 0.05).",
+        "technique": "runtime monitoring: generated-input differential checks with unique tokens identifying the applied permutation",
+    },
+})
